@@ -42,6 +42,9 @@ let push f arg =
   let t = (match fin with Panic _ -> t ^ "P" | _ -> t) in
   let t = if t = "" then "-" else t in
   t ^ " " ^ show_res kind hex_of_bytes fin
+let cap_of (a : string) = Some (n_of_int (int_of_string a))
+let deccap f cap arg = show_res kind hex_of_bytes (f (cap_of cap) (text_of_arg arg))
+let pushcap f cap arg = push (f (cap_of cap)) arg
 let conv f args = show_res conv_kind hex_of_bytes (f (List.map text_of_arg args))
 let handle = function
   | ["enc64"; a] -> enc c18_enc64 c18_spec_enc64 a
@@ -53,6 +56,12 @@ let handle = function
   | ["push64"; a] -> push c18_push64 a
   | ["push32"; a] -> push c18_push32 a
   | ["push16"; a] -> push c18_push16 a
+  | ["deccap64"; c; a] -> deccap c18_deccap64 c a
+  | ["deccap32"; c; a] -> deccap c18_deccap32 c a
+  | ["deccap16"; c; a] -> deccap c18_deccap16 c a
+  | ["pushcap64"; c; a] -> pushcap c18_pushcap64 c a
+  | ["pushcap32"; c; a] -> pushcap c18_pushcap32 c a
+  | ["pushcap16"; c; a] -> pushcap c18_pushcap16 c a
   | "conv64" :: l -> conv c18_conv64 l
   | "conv32" :: l -> conv c18_conv32 l
   | "conv16" :: l -> conv c18_conv16 l
